@@ -128,8 +128,22 @@ func (f *FnVC) execInstr(st *State, in ssa.Instruction) {
 	case *ssa.RunDefers:
 		f.runDefers(st)
 	case *ssa.Go:
-		// the spawned function runs later on an arbitrary heap: effects dropped here (verified separately)
+		// the spawned function runs later on an arbitrary heap: effects dropped here (verified separately); the
+		// arguments are evaluated now, so `at-call` clauses of the spawner can constrain what the goroutine is given
 		f.abstracted("go statement")
+		if f.Ct != nil && len(f.Ct.AtCalls) > 0 {
+			if _, isB := x.Call.Value.(*ssa.Builtin); !isB {
+				var gargs []Val
+				if x.Call.IsInvoke() {
+					gargs = append(gargs, f.get(x.Call.Value))
+				}
+				for _, a := range x.Call.Args {
+					gargs = append(gargs, f.get(a))
+				}
+				_, _, display := f.calleeKeys(&x.Call)
+				f.noteSite(st, &x.Call, display, gargs, Val{}, x.Pos())
+			}
+		}
 	case *ssa.Send:
 		f.abstracted("channel send")
 	case *ssa.Select:
